@@ -310,6 +310,36 @@ def check_dt0(ctx, variant, lits, tree_kind, mag, vf_kind, custom):
     return r
 
 
+def check_dt0_order2(ctx, variant, lits, it):
+    """second-order problems: `initial_values = (u0, du0)`; the proposal is scale * max(||u0||, nugget) / (||f(u0, du0, t)|| + nugget)
+    - the norm of the *state* u0, not of all initial values (seeded change C18-s5)"""
+    import jax.numpy as jnp
+    from probdiffeq import ivpsolve, probdiffeq
+
+    rng = ctx.rng
+    d = int(rng.integers(1, 4))
+    u0 = gen.dyadic(rng, (d,), bits=4, scale=2.0) * (0.0 if it % 4 == 3 else 1.0)  # every fourth case: u0 = 0 (nugget branch)
+    du0 = gen.dyadic(rng, (d,), bits=4, scale=8.0) + 3.0
+    t0 = float(gen.dyadic(rng, (), bits=3, scale=2.0))
+    a, b, c = -2.0, 0.5, 0.25
+    vf = probdiffeq.ode_order_two(lambda u, du, /, *, t: a * u + b * du + c * t)
+    scale, nugget = lits["dt0"].get("scale", 0.01), lits["dt0"].get("nugget", 1e-5)
+    r = float(ivpsolve.dt0(vf, (jnp.asarray(u0), jnp.asarray(du0)), t=t0))
+    f0 = a * u0 + b * du0 + c * t0
+    case = {"helper": "dt0", "order": 2, "u0": u0.tolist(), "du0": du0.tolist(), "t0": t0, "vector_field": f"{a} u + {b} du + {c} t", "returned": r}
+    ctx.case(case)
+    ctx.count("dt0.order=2")
+    op = "dt0_current" if variant == "current" else "dt0_fixed"
+    (exact,) = ctx.drv.call(op, F(scale), F(nugget), norm_q(u0), norm_q(f0))
+    expected = to_float(exact)
+    if not (math.isfinite(r) and r > 0.0):
+        ctx.violation("dt0:order2:nonpositive-or-nonfinite", f"ivpsolve.dt0 returned {r!r} for a second-order problem", case)
+        return
+    dev = abs(r - expected) / expected
+    ctx.dev("dt0.value.order2", dev, TOL, case=dict(case, expected=expected), sig="dt0:order2:value",
+            what=f"dt0 of a second-order problem returned {r!r}, model ({op}) gives {expected!r}: relative deviation {dev:.3e}")
+
+
 # ------------------------------------------------------------------------------------------------
 # dt0_adaptive
 
@@ -536,6 +566,8 @@ def run(ctx):
         if vf_kind == "quadratic" and mag in ("huge", "badly-extreme", "partly-zero"):
             vf_kind = "linear"
         check_dt0(ctx, variant, lits, tree_kind, mag, vf_kind, custom=(it % 4 == 3))
+        if it % 8 == 0:
+            check_dt0_order2(ctx, variant, lits, it // 8)
         check_dt0_adaptive(ctx, lits, tree_kind, mag, vf_kind)
 
     # solves
